@@ -24,7 +24,24 @@ package consistenthash
 //@ -- offset in [0, m), skip in [1, m-1]
 //@ func (*ConsistentHash).offsetAndSKip
 //@   property C33
-//@   requires ch != nil && ch.m >= 2 && ch.m <= 65521
-//@   option safety off
+//@   option mathint
+//@   requires ch != nil && ch.m >= 2 && ch.m <= 65521 && ch.h1 != nil && ch.h2 != nil
 //@   ensures res2 == nil ==> 0 <= res0 && res0 < ch.m && 1 <= res1 && res1 <= ch.m - 1
 //@   ensures ch.m == old(ch.m)
+
+//@ ghost chOff int
+//@ ghost chSkip int
+
+//@ -- permutation[j] = (offset + j*skip) mod m with offset in [0,m) and skip in [1,m-1]; every entry is a
+//@ -- valid table index.  (For prime m such a sequence visits every index exactly once - see the axiom in
+//@ -- the property's notes - so a backend can always find a free cell while the table is not full.)
+//@ func (*ConsistentHash).permutation
+//@   property C33
+//@   option mathint
+//@   requires ch != nil && ch.m >= 2 && ch.m <= 65521 && ch.h1 != nil && ch.h2 != nil
+//@   ghost at call offsetAndSKip: chOff = res0 ; chSkip = res1
+//@   ensures err == nil ==> len(res0) == ch.m && 0 <= chOff && chOff < ch.m && 1 <= chSkip && chSkip <= ch.m - 1
+//@   ensures err == nil ==> forall k int :: 0 <= k && k < ch.m ==> res0[k] == (chOff + k * chSkip) % ch.m && 0 <= res0[k] && res0[k] < ch.m
+//@   loop 1 invariant 0 <= j && j < ch.m && ch.m == old(ch.m) && len(permutation) == ch.m && fresh(permutation)
+//@   loop 1 invariant 0 <= offset && offset < ch.m && 1 <= skip && skip <= ch.m - 1 && chOff == offset && chSkip == skip
+//@   loop 1 invariant forall k int :: 0 <= k && k < j ==> permutation[k] == (offset + k * skip) % ch.m && 0 <= permutation[k] && permutation[k] < ch.m
